@@ -611,7 +611,8 @@ def c05(rec):
 # ---------------------------------------------------------------- C07
 
 def c07(rec):
-    if rec.get("mod") != "storage":
+    # records of the contract route (mod "wasm") are MsgPostFile deliveries too: the same accounting must hold after them
+    if rec.get("mod") not in ("storage", "wasm") or (rec.get("mod") == "wasm" and not isinstance(rec.get("op"), dict)):
         return []
     out = unchanged_if_failed(rec, "C07") if opk(rec)[0] == "postFile" else []
     k, v = opk(rec)
